@@ -18,3 +18,9 @@ open UtilModel UtilModel.CSync
 #print axioms C01_accepted_mutex
 #print axioms cands_complete_rw
 #print axioms cands_complete_mutex
+#print axioms UtilModel.rejectH_sound
+#print axioms UtilModel.reject_sound
+#print axioms UtilModel.CSync.complete_rw
+#print axioms UtilModel.CSync.complete_mutex
+#print axioms UtilModel.CSync.reject_sound_rw
+#print axioms UtilModel.CSync.reject_sound_mutex
